@@ -17,7 +17,7 @@ a proof because the enumerations are proved complete (`C17_orientation_enumerati
 parametric dimension.
 -/
 
-open Splipy
+open Splipy Splipy.MP
 
 /-- `Orientation.all n` (the search order of `Orientation.compute`: `permutations × product`)
     lists exactly the well-formed orientations of parametric dimension `n`; there are 2, 8, 48
